@@ -139,6 +139,11 @@ def lean_audit(prop):
         if all(a in ALLOWED_AXIOMS for a in axs): res["discharged"] += 1
         else: res["problems"].append("%s depends on %s" % (m.group(1), axs))
     if rc != 0: res["problems"].append("axiom audit failed: " + out[-1500:])
+    # thorough tier: the compiled module is re-checked by the toolchain's independent checker
+    if os.environ.get("VERIF_AUDIT_TIER") == "thorough":
+        rc2, out2 = sh(["lake", "env", "leanchecker", mod], cwd=LEAN_DIR)
+        res["leanchecker"] = "ok" if rc2 == 0 else ("failed: " + out2[-500:])
+        if rc2 != 0: res["problems"].append("leanchecker rejects %s: %s" % (mod, out2[-500:]))
     if len(res["theorems"]) != len(names):
         res["problems"].append("audited %d of %d theorems" % (len(res["theorems"]), len(names)))
     return res
